@@ -331,6 +331,25 @@ Definition do_leave (c : cfg) (s : st) (t : N) : st :=
         end
   end.
 
+(* the pthread_exit() wrapper (libmcount/wrap.c): the thread never returns through its open calls; every one of them
+   that has a shadow-stack entry is handed to mcount_exit_filter_record with its end time still 0, newest first - the
+   pending ENTRY records are written, no EXIT - and dropped; a call beyond --max-stack only counted *)
+Fixpoint thread_exit_go (c : cfg) (fuel : nat) (s : st) : st :=
+  match fuel with
+  | O => s
+  | S n =>
+      match stack s with
+      | [] => s
+      | top :: anc =>
+          thread_exit_go c n
+            (if f_ghost top
+             then {| fc := fc s; enabled := enabled s; cached := cached s; stack := anc; ridx := ridx s; out := out s;
+                     warned := warned s |}
+             else exit_record c s top anc)
+      end
+  end.
+Definition do_thread_exit (c : cfg) (s : st) : st := thread_exit_go c (length (stack s)) s.
+
 Definition do_fork_child (s : st) : st :=
   {| fc := fc s; enabled := enabled s; cached := cached s; stack := map set_written (stack s); ridx := ridx s;
      out := []; warned := warned s |}.          (* new buffers for the new tid: the stream starts empty *)
